@@ -216,7 +216,7 @@ def inqarlpackedbit(path):
     out['NX'] = int(fheader['NX']) + gridx_off
     out['NY'] = int(fheader['NY']) + gridy_off
     out['NZ'] = int(fheader['NZ'])
-    vheader = np.fromfile(f, count=1, dtype='>%dS' % hlen)[0]
+    vheader = np.fromfile(f, count=1, dtype='>%dS' % (hlen - 108))[0]
     readvardef(vheader, out)
     return out
 
@@ -412,8 +412,8 @@ def maparlpackedbit(path, mode='r', shape=None, props=None):
     sfckeys = props['sfckeys']
     laykeys = props['laykeys']
     ncell = nx * ny
-    vardefdtype = dtype('>S%d' % hlen)
-    hdrdtype = dtype('>S%d' % (50 + ncell - hlen - thdtype.itemsize))
+    vardefdtype = dtype('>S%d' % (hlen - 108))
+    hdrdtype = dtype('>S%d' % (50 + ncell - (hlen - 108) - thdtype.itemsize))
     lay1dtype = dtype(
         [('head', vhdtype), ('data', dtype('(%d,%d)>1S' % (ny, nx)))])
     sfcdtype = dtype(dict(names=[k.decode() for k in sfckeys], formats=[
